@@ -272,6 +272,10 @@ The code reports the faults of ONE operation stage only — the first that repor
 that stage.  Likewise for schema files: `resolve_schema_extensions` returns a single error, which hides the
 extension-resolution faults of other schema files and every fault `check_type_system_document` would find
 (`C18_schema_stage_counterexample`); and a schema that is not accepted ends the check before operations are looked at.
+`resolve_operation_imports` also returns ONE error per root file — the first met along the import chain, so it may be
+located in an imported file (`imp : Option Diag` carries an arbitrary position): the theorem below says the fault is
+REPORTED; that the report names the file itself needs the position to lie in that file (open finding
+`unnamed:op-import:masked-by:op-import`).
 -/
 
 /-- every operation file with a fault at the first failing operation stage contributes a diagnostic carrying that
